@@ -265,7 +265,9 @@ func checkC03(run *mon.Run, rng *mon.Rand, thorough bool) {
 				{
 					b4 := env.L1.Branch()
 					if r := b4.Deliver(cloneClaim(control)); r.Class != sim.OK {
-						panic("control failed on branch")
+						// the same valid claim was accepted a moment ago on another (discarded) branch of this state
+						run.Check("C03.control_accepted", false, "c03.control_rejected_after_discarded_branch", []string{fmt.Sprintf("tree size %d shape %d pos %d: %s", n, shape, pos, r.ErrString())}, "valid claim rejected on a fresh branch after an identical claim ran on a discarded branch: %s", r.ErrString())
+						continue
 					}
 					for _, sub := range []sim.Account{user, env.Users[5]} {
 						m := cloneClaim(control)
